@@ -583,6 +583,9 @@ pub struct OpEnv {
     /// the source of the next `set` is a hard link to this (cached) file
     /// instead of a freshly written one
     pub link_from: Option<String>,
+    /// the application's source file carries this mtime offset relative to the
+    /// clock (a copy with preserved timestamps, a file server running ahead)
+    pub src_skew_ns: i64,
 }
 
 /// Runs `f` with the thread marked as being inside a library call.
@@ -614,7 +617,20 @@ fn app_source(env: &OpEnv, op_id: u32, key: &str, tag: u32, plen: usize) -> std:
     }
     let mut f = File::create(&p)?;
     write_chunked(&mut f, &make_value(key, tag, plen), env.chunk)?;
+    drop(f);
+    skew_source(env, &p)?;
     Ok(p)
+}
+
+/// Gives the application's freshly written source the configured mtime skew.
+fn skew_source(env: &OpEnv, p: &Path) -> std::io::Result<()> {
+    if env.src_skew_ns != 0 {
+        let now = env.sim.lock().fs.now;
+        let t = now + env.src_skew_ns;
+        let ft = kismet_vfs::filetime::FileTime::from_unix_time(t.div_euclid(1_000_000_000), t.rem_euclid(1_000_000_000) as u32);
+        kismet_vfs::filetime::set_file_times(p, ft, ft)?;
+    }
+    Ok(())
 }
 
 /// Executes one operation on one handle.  Never lets a panic escape except
@@ -688,6 +704,7 @@ pub fn exec_op(env: &OpEnv, op_id: u32, hidx: usize, h: &Handle, kidx: usize, ke
                 let dir = lib(|| c.temp_dir().map(|d| d.into_owned()))?;
                 let mut tmp = NamedTempFile::new_in(dir)?;
                 write_chunked(tmp.as_file_mut(), &make_value(name, *tag, *plen), env.chunk)?;
+                skew_source(env, tmp.path())?;
                 if matches!(op, Op::Set { .. } | Op::SetTemp { .. }) {
                     lib(|| c.set(name, tmp.path()))?;
                 } else {
@@ -700,6 +717,7 @@ pub fn exec_op(env: &OpEnv, op_id: u32, hidx: usize, h: &Handle, kidx: usize, ke
                 let dir = lib(|| c.temp_dir(Some(key.key())).map(|d| d.into_owned()))?;
                 let mut tmp = NamedTempFile::new_in(dir)?;
                 write_chunked(tmp.as_file_mut(), &make_value(name, *tag, *plen), env.chunk)?;
+                skew_source(env, tmp.path())?;
                 if matches!(op, Op::Set { .. } | Op::SetTemp { .. }) {
                     lib(|| c.set(key.key(), tmp.path()))?;
                 } else {
@@ -1051,6 +1069,12 @@ pub fn make_observer(cfg: InvCfg, state: Arc<Mutex<InvState>>) -> k::Observer {
             }
             if r.kind == K::Lock {
                 state.lock().unwrap().locks += 1;
+            }
+            // the library closed a descriptor number it does not hold (any more):
+            // in a process with other threads that number may already be
+            // somebody else's file
+            if r.kind == K::Close && r.lib && r.err == libc::EBADF && !r.injected {
+                state.lock().unwrap().violations.push(("double-close", format!("the library closed descriptor {} which is not open (closed twice?): {}", r.fd, r.short())));
             }
             return;
         }
